@@ -147,6 +147,18 @@ class Program:
             return ("cast", t[1], S(t[2]), t[3])
         if tag == "field":
             base = S(t[1])
+            if t[2] == "0" and base[0] == "as" and base[2] == "Some" and base[1][0] == "call" \
+                    and base[1][1] in ("str::strip_prefix", "str::strip_suffix") and len(base[1][2]) == 2:
+                # payload of x.strip_prefix(p) is x[len(p)..]; of x.strip_suffix(p) is x[..len(x) - len(p)]
+                x, pat = base[1][2]
+                if pat[0] == "char":
+                    plen = ("int", 1 if pat[1] < 0x80 else 2 if pat[1] < 0x800 else 3 if pat[1] < 0x10000 else 4)
+                else:
+                    plen = ("call", "str::len", (pat,))
+                if base[1][1] == "str::strip_prefix":
+                    return ("call", "Index::index", (x, ("adt", "std::ops::RangeFrom", "RangeFrom", (("start", plen),))))
+                return ("call", "Index::index", (x, ("adt", "std::ops::RangeTo", "RangeTo",
+                                                     (("end", ("bin", "Sub", ("call", "str::len", (x,)), plen)),))))
             if t[2] == "0" and base[0] == "as" and base[2] == "Continue" and base[1][0] == "call" \
                     and base[1][1] == "Option::branch" and len(base[1][2]) == 1:
                 # `opt?` is `match opt { Some(v) => v, None => return None }`
